@@ -413,6 +413,26 @@ def aperture_setters(rep, r, n):
                           {'kind': kind, 'params': p, 'new': p2})
         rep.case(('apset', kind, which, tuple(sorted(p.items()))), True, kind=f'aperture-setter:{which}')
         rep.probe_only += 1
+        # call history on ONE object, no re-assignment in between: a masked area_overlap / do_photometry call, then unmasked calls with the
+        # same method - they give what a fresh object gives (seed C09-r12 cached the masks and zeroed the masked weights in place)
+        try:
+            aph, fresh_ = make_aperture(kind, p), make_aperture(kind, p)
+            mk_ = np.zeros(img.shape, bool)
+            mk_[max(0, int(p['cy']) - 1):int(p['cy']) + 2, max(0, int(p['cx']) - 1):int(p['cx']) + 2] = True
+            meth = ['exact', 'center', 'subpixel'][k % 3]
+            with warnings.catch_warnings():
+                warnings.simplefilter('ignore')
+                _ = aph.area_overlap(img, mask=mk_, method=meth)
+                _ = aph.do_photometry(img, mask=mk_, method=meth)
+                got_h = (float(np.atleast_1d(aph.do_photometry(np.ones(img.shape), method=meth)[0])[0]), float(np.atleast_1d(aph.area_overlap(img, method=meth))[0]),
+                         float(aph.to_mask(method=meth).data.sum()))
+                want_h = (float(np.atleast_1d(fresh_.do_photometry(np.ones(img.shape), method=meth)[0])[0]), float(np.atleast_1d(fresh_.area_overlap(img, method=meth))[0]),
+                          float(fresh_.to_mask(method=meth).data.sum()))
+            if not all((a_ == b_) or (math.isnan(a_) and math.isnan(b_)) for a_, b_ in zip(got_h, want_h)):
+                rep.violation(f'aperture-call-history:{kind}', f'{kind} ({meth}): after area_overlap / do_photometry WITH a mask, the unmasked sum of ones / area_overlap / mask sum '
+                              f'are {got_h}; a fresh aperture gives {want_h}', {'kind': kind, 'params': p, 'method': meth})
+        except Exception as e:                                  # noqa: BLE001
+            rep.violation(f'aperture-call-history-raises:{kind}', f'{kind}: repeated photometry calls raised {e!r}', {'kind': kind, 'params': p})
         # re-assign `positions` with a different number of positions (scalar <-> list), after shape / isscalar were read
         try:
             apc = make_aperture(kind, p)
